@@ -125,6 +125,23 @@ def intake(mid, outdir, prop):
     return 0 if ok else 1
 
 
+
+
+def _save_evidence():
+    """checks rewrite /verif/evidence/<id>.json on every run: keep the committed files while a defect is applied"""
+    import shutil, tempfile
+    d = tempfile.mkdtemp(prefix="evidence_keep_")
+    shutil.copytree("/verif/evidence", d + "/evidence")
+    return d
+
+
+def _restore_evidence(d):
+    import shutil
+    shutil.rmtree("/verif/evidence", ignore_errors=True)
+    shutil.copytree(d + "/evidence", "/verif/evidence")
+    shutil.rmtree(d, ignore_errors=True)
+
+
 def run(mid, props, tier):
     d = os.path.join(SEEDED, mid)
     meta = json.load(open(os.path.join(d, "meta.json")))
@@ -134,6 +151,7 @@ def run(mid, props, tier):
     rc, out = sh(["git", "-C", REPO, "apply", os.path.join(d, "patch.diff")])
     assert rc == 0, out
     res = {}
+    keep = _save_evidence()
     try:
         for p in props:
             t0 = time.time()
@@ -146,6 +164,7 @@ def run(mid, props, tier):
                 print("    " + l.strip()[:300])
     finally:
         sh(["git", "-C", REPO, "checkout", "--", "."])
+        _restore_evidence(keep)
     meta.setdefault("checks", {})
     for p, r in res.items():
         meta["checks"]["%s/%s" % (p, tier)] = r
